@@ -4,6 +4,7 @@
    Element codes.  ty 0 = u8, 1 = i32: the value.  ty 2 = f64: 1000 = NaN,
    1001 = -0.0, any other c = the number c/2.  ty 3 = String: the bytes as base-256
    digits after a leading 1 ("" = 1, "a" = 353).  ty 4 = GenericArray<u8,U2>: 256*x+y.
+   ty 5 = Kv {k, v}: 256*k+v, equal on both fields, ordered by the key alone.
 
    pair case    0 ty n a_0..a_{n-1} b_0..b_{n-1}
      OBS  eq ne pcmp lt le gt ge 1  cmp hmA hmB hmShort hmLong btA btB btShort btLong 1
@@ -83,6 +84,7 @@ Definition run_pair (ty : Z) (a b : list Z) : list Z :=
          pair_obs str_eq str_pcmp a' b' ++ cmp_part str_eq str_cmp str_hasht a' b'
   | 4 => let a' := map dec_nest a in let b' := map dec_nest b in
          pair_obs nest_eq nest_pcmp a' b' ++ cmp_part nest_eq nest_cmp nest_hasht a' b'
+  | 5 => pair_obs kv_eq kv_pcmp a b ++ cmp_part kv_eq kv_cmp kv_hasht a b
   | _ => [-2]
   end.
 
@@ -140,6 +142,7 @@ Definition run_single (ty : Z) (table : list (Z * list (list Z))) (a : list Z) :
   | 2 => single_obs None leaf a   (* Debug of an f64 leaf: through the table only *)
   | 3 => single_obs (Some str_hasht) (fun f s => leaf f (enc_str s)) (map (fun c => dec_str 40 c []) a)
   | 4 => single_obs (Some nest_hasht) (ga_debug leaf) (map dec_nest a)
+  | 5 => single_obs (Some kv_hasht) leaf a
   | _ => [-2]
   end.
 
